@@ -405,6 +405,8 @@ def companion(c, A_den, B_num, upto=None):
 
 @register
 class rmfd2ac(Contract):
+    term_level = True      # cells / terms over opaque kernels (qr, solve): see runner
+
     qualname = "pyoma2.functions.plscf.rmfd2ac"
     props = ("C05",)
     generic_replay = False
